@@ -84,18 +84,17 @@ def validate(trace, tag, module="BytesTrace", cfg="BytesTrace.cfg", timeout=1800
     nlines = sum(1 for _ in open(trace))
     if nlines == 0:
         raise C.ToolError("empty trace " + trace)
-    rc, out = C.run_tlc(module, cfg, os.path.join(C.WORK, "tlc_" + tag), workers=1,
-                        env_extra={"TRACE": trace}, timeout=timeout, heap="6g")
-    tuples = C.tlc_tuples(out)
-    done = [t for t in tuples if t.startswith('<<"DONE"') or t.startswith('<< "DONE"')]
-    if not done or C.tlc_failed(out):
-        tail = "\n".join(out.split("\n")[-40:])
-        raise C.ToolError("TLC did not consume the whole trace (%s):\n%s" % (trace, tail))
-    m = re.match(r'<<\s*"DONE",\s*(\d+),\s*(\d+)', done[-1])
-    if int(m.group(1)) != nlines:
-        raise C.ToolError("TLC consumed %s of %d events" % (m.group(1), nlines))
+    tuples, stats, total = C.run_tlc_parallel(module, cfg, trace, tag, lambda ln: ln.startswith('{"i":0,"op":"reset"'),
+                                              nparts=8 if nlines > 30000 else 1, timeout=timeout, heap="4g")
+    if total != nlines:
+        raise C.ToolError("TLC consumed %d of %d events" % (total, nlines))
     viols = [v for v in (C.parse_lawviol(t) for t in tuples if "LAWVIOL" in t[:14]) if v]
-    return viols, C.parse_counts(done[-1]), C.tlc_stats(out), out
+    counts = {}
+    for t in tuples:
+        if re.match(r'<<\s*"DONE"', t):
+            for k, n in C.parse_counts(t).items():
+                counts[k] = counts.get(k, 0) + n
+    return viols, counts, stats, ""
 
 
 def extract_program(trace, pid):
